@@ -329,11 +329,17 @@ def rule_stream(rep: Report, rid="C17.order") -> None:
     for what, ok in details:
         rep.ob(rid, what, ok, **kw, expected="as stated", found="deviates" if not ok else "ok")
     rep.eq(rid, "envelope order is source, gherkinDocument, pickles, all after the parse", ["parse", "source", "gherkinDocument", "compile", "pickle"], kinds, **kw)
-    # handlers
-    hs = {h[0]: h for h in t[2]}
-    rep.ob(rid, "handlers cover the composite error and the root ParserError", "CompositeParserException" in hs and "ParserError" in hs and
-           [h[0] for h in t[2]].index("CompositeParserException") < [h[0] for h in t[2]].index("ParserError"), **kw,
+    # handlers: decided per kind of failure (the composite error / any other parser error), whichever way the handlers
+    # split the work (two except clauses, one clause with an isinstance test, a helper ...)
+    F = I.facts
+    comp_cls = F.cls("gherkin.errors.CompositeParserException")
+    root_cls = F.cls("gherkin.errors.ParserError")
+    mod = fi.module
+    htypes = [(h, F.annotation_class(mod, ast.parse(h[0], mode="eval").body) if h[0] else None) for h in t[2]]
+    rep.ob(rid, "handlers catch parser errors only (the composite error and the root ParserError), nothing broader",
+           bool(htypes) and all(c is not None and root_cls in c.mro() for _, c in htypes), **kw,
            expected="except CompositeParserException ... except ParserError", found=[h[0] for h in t[2]])
+
     def envelope_ok(v, X, treex):
         d = nf.resolve_ref_dict(I, v, treex)
         pe = nf.resolve_ref_dict(I, d["parseError"][0], treex) if d and set(d) == {"parseError"} else None
@@ -341,37 +347,34 @@ def rule_stream(rep: Report, rid="C17.order") -> None:
         return src is not None and set(src) == {"uri", "location"} and src["uri"][0] == uri and src["location"][0] == ("attr", X, "location") \
             and pe["message"][0] == ("call", "str", (X,), ())
 
-    for name, h in hs.items():
-        ys = [(n, c) for n, c in nf.iter_nodes(h[2]) if n[0] in ("yield", "yieldfrom")]
+    for scenario, ecls in (("the composite error", comp_cls), ("a single parser error", root_cls)):
+        h = next((h for h, c in htypes if c is not None and c in ecls.mro()), None)
+        if h is None:
+            rep.ob(rid, f"{scenario} is turned into parseError envelopes", False, **kw, expected="a handler", found=[x[0] for x in t[2]])
+            continue
+        exc = ("excvar", h[4], h[0])
+        is_comp = ("call", "isinstance", (exc, ("class", comp_cls.qualname)), ())
+        assign = {is_comp: ecls is comp_cls}
+        body = nf.specialise(h[2], assign)
+        ys = [(n, c) for n, c in nf.iter_nodes(body) if n[0] in ("yield", "yieldfrom")]
+        undecided = [n for n, c in nf.iter_nodes(body) if n[0] == "if"]
         ok = False
         found = [n[0] for n, c in ys]
-        if len(ys) == 1 and ys[0][0][0] == "yield":
+        if len(ys) == 1 and ys[0][0][0] == "yield" and not undecided:
             n, c = ys[0]
             loops = nf.loops_in_ctx(c)
-            exc = ("excvar", h[4], h[0])
-            if name == "CompositeParserException":
-                if len(loops) == 1:
-                    li = I.loops[loops[0]]
-                    it = li.get("iter")
-                    ok = it is not None and it[0] == "attr" and it[2] == "errors" and it[1][0] == "excvar" and not li.get("conds") \
-                        and envelope_ok(n[1], ("elem", loops[0]), h[2]) and not nf.guards_in_ctx(c)
-            else:
-                X = None
-                if not loops:
-                    for t in nf.subterms(n[1]):
-                        pass
-                    # the single error itself: find the exception variable used in the envelope
-                    d0 = nf.resolve_ref_dict(I, n[1], h[2])
-                    pe0 = nf.resolve_ref_dict(I, d0["parseError"][0], h[2]) if d0 and "parseError" in d0 else None
-                    m0 = pe0["message"][0] if pe0 and "message" in pe0 else None
-                    X = m0[2][0] if m0 is not None and m0[0] == "call" and m0[1] == "str" and len(m0[2]) == 1 else None
-                    ok = X is not None and X[0] == "excvar" and envelope_ok(n[1], X, h[2]) and not nf.guards_in_ctx(c)
-                elif len(loops) == 1:
-                    li = I.loops[loops[0]]
-                    o = I.obj(li.get("iter")) if li.get("iter") else None
-                    ok = isinstance(o, HList) and len(o.segs) == 1 and o.segs[0][0] == "e" and o.segs[0][1][0] == "excvar" \
-                        and envelope_ok(n[1], ("elem", loops[0]), h[2])
-        rep.ob(rid, f"handler for {name} yields only parseError envelopes {{source: {{uri, location: error.location}}, message: str(error)}}, one per error in order", ok, **kw,
+            it = nf.resolve_conds(I.loops[loops[0]].get("iter"), assign) if len(loops) == 1 else None
+            conds = I.loops[loops[0]].get("conds") if len(loops) == 1 else None
+            if ecls is comp_cls:
+                ok = it == ("attr", exc, "errors") and not conds and envelope_ok(n[1], ("elem", loops[0]), h[2])
+                found = {"iterates": fmt(it, I) if it else None}
+            elif not loops:
+                ok = envelope_ok(n[1], exc, h[2])
+            elif it is not None:
+                o = I.obj(it)
+                ok = isinstance(o, HList) and [sg for sg in o.segs] == [("e", exc)] and not conds and envelope_ok(n[1], ("elem", loops[0]), h[2])
+                found = {"iterates": fmt(it, I)}
+        rep.ob(rid, f"{scenario} yields only parseError envelopes {{source: {{uri, location: error.location}}, message: str(error)}}, one per error in order", ok, **kw,
                expected="for error in errors: yield {'parseError': {'source': {'uri', 'location'}, 'message'}}", found=found)
     # the stream shares one id generator between builder and compiler and one parser/compiler across sources
     I3, fi3, tree3, rv3, st3 = _run("gherkin.stream.gherkin_events.GherkinEvents.__init__")
